@@ -6,6 +6,7 @@ import PortusModel.Driver.Lang
 import PortusModel.Driver.Rt
 import PortusModel.Driver.Vm
 import PortusModel.Driver.Uid
+import PortusModel.Driver.Xpt
 /-! `pmodel`: the line-protocol driver around the model's executable definitions. -/
 open Portus.Driver
 
@@ -21,6 +22,7 @@ def dispatch (cmd : String) (args : List String) : String :=
   | "LOW" => lowCmd args
   | "UID" => uidCmd args
   | "STOP" => stopCmd args
+  | "XPT" => xptCmd args
   | "CMP" => cmp args
   | "AST" => ast args
   | "ORC" => (match args with
@@ -34,6 +36,7 @@ def dispatch (cmd : String) (args : List String) : String :=
     | "C03" :: rest => orcC03 rest
     | "C01" :: rest => orcC01 rest
     | "C20" :: rest => orcC20 rest
+    | "C19" :: rest => orcC19 rest
     | "C02" :: rest => orcTrace Portus.Rt.checkC02 rest
     | "C09" :: rest => orcTrace Portus.Rt.checkC09 rest
     | "C16" :: rest => orcTrace Portus.Rt.checkC16 rest
